@@ -12,10 +12,10 @@ CONSTANTS NArr,        \* number of sub-arrays
           MergeOps,    \* subset of {"update", "extend", "iadd", "add"}
           Configs,     \* set of [r, expl] (see ConfigsUniform / ConfigsAll below)
           Positions    \* TRUE: insert at every index; FALSE: append only
-VARIABLES arr, alive, nxt, cfg, failed,
+VARIABLES arr, alive, nxt, cfg, failed, burnt,
           q            \* arrays whose summaries (consensus, supports, length summaries, scores) have been asked for:
                        \* from then on they are asked for again after every call on that array (query / add / query)
-vars == <<arr, alive, nxt, cfg, failed, q>>
+vars == <<arr, alive, nxt, cfg, failed, burnt, q>>
 
 \* catalogue: two topologies on four taxa, three length patterns / weights.
 \* unrooted (and rooting-less) trees have a trifurcating seed, rooted ones a bifurcating seed.
@@ -29,9 +29,13 @@ LensR(id) == CASE id = 1 -> <<-1, 4, 4, 4, 4, 4, 4>> [] id = 2 -> <<-1, 8, 12, 4
 \* weights 1 (none given), 2, 1 (given): in the sample <<1, 2, 3>> the two topologies tie at exactly half of the weight,
 \* so that a consensus has to break a tie between incompatible splits
 WeightOf(id) == IF id = 2 THEN 4 ELSE IF id = 3 THEN 2 ELSE -1
-Graph(id, r) == IF r = 1 THEN MkTree(ParR, TaxaOf(id), LensR(id), 1) ELSE MkTree(ParU, TaxaOf(id), LensU(id), r)
-Cat(r) == [id \in 1..3 |-> Descr(Graph(id, r), WeightOf(id))]
-DefaultSet == [iel |-> FALSE, ina |-> TRUE, utw |-> TRUE]
+\* rooted and ultrametric (node ages are recorded for these): depths 2, 3, 4; the leaf of taxon 1 has lengths 1, 2, 3
+LensA(id) == CASE id = 1 -> <<-1, 4, 4, 4, 4, 4, 4>> [] id = 2 -> <<-1, 4, 8, 8, 8, 4, 4>> [] OTHER -> <<-1, 4, 12, 12, 12, 4, 4>>
+\* kind: -1 / 0 / 1 the rooting of an ordinary sample, 2 the rooted ultrametric one
+Graph(id, kind) == IF kind = 2 THEN MkTree(ParR, TaxaOf(id), LensA(id), 1)
+                   ELSE IF kind = 1 THEN MkTree(ParR, TaxaOf(id), LensR(id), 1) ELSE MkTree(ParU, TaxaOf(id), LensU(id), kind)
+Cat(kind) == [id \in 1..3 |-> Descr(Graph(id, kind), WeightOf(id), NoTipAges)]
+SetOf(c) == [iel |-> FALSE, ina |-> ~c.ages, utw |-> TRUE]
 
 SampleQuick == <<1, 2, 3>>
 SampleThorough == <<1, 2, 3, 1>>
@@ -41,20 +45,24 @@ Arrs == 1..NArr
 CatU == Cat(0)
 CatR == Cat(1)
 CatN == Cat(-1)
-D == CASE cfg.r = 0 -> CatU [] cfg.r = 1 -> CatR [] OTHER -> CatN
+CatA == Cat(2)
+D == IF cfg.ages THEN CatA ELSE CASE cfg.r = 0 -> CatU [] cfg.r = 1 -> CatR [] OTHER -> CatN
 \* configurations: rooting of the sample (0 unrooted, 1 rooted, -1 no rooting information) and which arrays are
 \* created with an explicit is_rooted_trees
 Uniform(b) == [k \in Arrs |-> b]
-ConfigsUniform == {[r |-> 0, expl |-> Uniform(FALSE)], [r |-> 0, expl |-> Uniform(TRUE)],
-                   [r |-> 1, expl |-> Uniform(FALSE)], [r |-> 1, expl |-> Uniform(TRUE)],
-                   [r |-> -1, expl |-> Uniform(FALSE)]}
-ConfigsAll == {[r |-> r, expl |-> e] : r \in {0, 1}, e \in [Arrs -> BOOLEAN]} \cup {[r |-> -1, expl |-> Uniform(FALSE)]}
+Cfg(r, e, ages) == [r |-> r, expl |-> e, ages |-> ages]
+\* quick: one of the five uniform configurations is the one that records node ages (rotated in, not multiplied)
+ConfigsUniform == {Cfg(0, Uniform(FALSE), FALSE), Cfg(0, Uniform(TRUE), FALSE), Cfg(1, Uniform(FALSE), FALSE),
+                   Cfg(1, Uniform(TRUE), TRUE), Cfg(-1, Uniform(FALSE), FALSE)}
+ConfigsAll == {Cfg(r, e, FALSE) : r \in {0, 1}, e \in [Arrs -> BOOLEAN]} \cup {Cfg(-1, Uniform(FALSE), FALSE)}
+                 \cup {Cfg(1, Uniform(b), TRUE) : b \in BOOLEAN}
 \* the uniform configurations plus "one array explicit, the others implicit" and the reverse
-ConfigsSome == ConfigsUniform \cup {[r |-> r, expl |-> [k \in Arrs |-> (k = 1) = b]] : r \in {0, 1}, b \in BOOLEAN}
-ConfigsImplicitUnrooted == {[r |-> 0, expl |-> Uniform(FALSE)]}
+ConfigsSome == ConfigsUniform \cup {Cfg(r, [k \in Arrs |-> (k = 1) = b], FALSE) : r \in {0, 1}, b \in BOOLEAN}
+                   \cup {Cfg(1, Uniform(FALSE), TRUE), Cfg(1, Uniform(TRUE), FALSE)}
+ConfigsImplicitUnrooted == {Cfg(0, Uniform(FALSE), FALSE)}
 Init == /\ cfg \in Configs
-        /\ arr = [k \in Arrs |-> NewArray(IF cfg.expl[k] THEN cfg.r ELSE -1, DefaultSet)]
-        /\ alive = Arrs /\ nxt = 1 /\ failed = FALSE /\ q = {}
+        /\ arr = [k \in Arrs |-> NewArray(IF cfg.expl[k] THEN cfg.r ELSE -1, SetOf(cfg))]
+        /\ alive = Arrs /\ nxt = 1 /\ failed = FALSE /\ q = {} /\ burnt = <<>>
 
 \* Arrays in identical states are interchangeable (renaming them gives an isomorphic behaviour): only the
 \* lowest-numbered one of each class is used as target, and as source the lowest one different from the target.
@@ -66,25 +74,37 @@ AddTree(k, i) ==
     /\ LET r == OpAddTree(arr[k], Sample[nxt], i, D) IN
          /\ arr' = [arr EXCEPT ![k] = r.st]
          /\ failed' = (failed \/ r.raised # "")
-    /\ nxt' = nxt + 1 /\ UNCHANGED <<alive, cfg, q>>
+    /\ nxt' = nxt + 1 /\ UNCHANGED <<alive, cfg, q, burnt>>
 Merge(op, k, j) ==
     /\ k \in alive /\ j \in alive /\ k # j /\ CanonT(k) /\ CanonS(k, j)
     /\ LET r == OpMerge(op, arr[k], arr[j], Shipped) IN
          /\ arr' = [arr EXCEPT ![k] = r.st]
          /\ failed' = (failed \/ r.raised # "")
-    /\ alive' = alive \ {j} /\ UNCHANGED <<nxt, cfg>>
+    /\ alive' = alive \ {j} /\ UNCHANGED <<nxt, cfg, burnt>>
     /\ q' = IF op = "add" THEN q \ {k, j} ELSE q \ {j}         \* a + b is a new object: nothing cached yet
 \* the first time the summaries of a non-empty array are asked for; the state of the array does not change
 Query(k) == /\ k \in alive /\ CanonT(k) /\ ~IsEmpty(arr[k]) /\ q = {}          \* one queried array at a time bounds the model
-            /\ q' = q \cup {k} /\ UNCHANGED <<arr, alive, nxt, cfg, failed>>
+            /\ q' = q \cup {k} /\ UNCHANGED <<arr, alive, nxt, cfg, failed, burnt>>
+\* read_from_files / read: all trees not yet added arrive as sources of two trees each (the last one may hold one),
+\* the first `o` trees of every source being burn-in
+RestAsSources == LET rest == SubSeq(Sample, nxt, N)  m == (Len(rest) + 1) \div 2
+                 IN [h \in 1..m |-> SubSeq(rest, 2 * h - 1, IF 2 * h <= Len(rest) THEN 2 * h ELSE Len(rest))]
+ReadFiles(k, o) ==
+    /\ k \in alive /\ CanonT(k) /\ nxt <= N
+    /\ LET r == OpReadFiles(arr[k], RestAsSources, o, D) IN
+         /\ arr' = [arr EXCEPT ![k] = r.st]
+         /\ failed' = (failed \/ r.raised # "")
+    /\ burnt' = burnt \o Flatten([h \in 1..Len(RestAsSources) |-> SubSeq(RestAsSources[h], 1, IF o < Len(RestAsSources[h]) THEN o ELSE Len(RestAsSources[h]))])
+    /\ nxt' = N + 1 /\ UNCHANGED <<alive, cfg, q>>
 Next == \/ \E k \in Arrs, i \in 0..N : AddTree(k, i)
         \/ \E op \in MergeOps, k \in Arrs, j \in Arrs : Merge(op, k, j)
         \/ \E k \in Arrs : Query(k)
+        \/ \E k \in Arrs, o \in {0, 1} : ReadFiles(k, o)
 Spec == Init /\ [][Next]_vars
 \* one-state specification whose dump hands the catalogue to the harness, which builds exactly these trees
 CatSpec == /\ cfg = [r |-> 0, expl |-> Uniform(FALSE), sample |-> Sample,
-                     graphs |-> [r \in {-1, 0, 1} |-> [id \in 1..3 |-> Graph(id, r)]], w |-> [id \in 1..3 |-> WeightOf(id)]]
-           /\ arr = <<>> /\ alive = {} /\ nxt = 1 /\ failed = FALSE /\ q = {}
+                     graphs |-> [r \in {-1, 0, 1, 2} |-> [id \in 1..3 |-> Graph(id, r)]], w |-> [id \in 1..3 |-> WeightOf(id)], ages |-> FALSE]
+           /\ arr = <<>> /\ alive = {} /\ nxt = 1 /\ failed = FALSE /\ q = {} /\ burnt = <<>>
            /\ [][FALSE]_vars
 
 \* ---- the property: every array in every reachable state - the operands of earlier merges included, which a
@@ -96,5 +116,6 @@ NoMergeFailure == ~failed                       \* all arrays of a run are compa
 PerTreeQueriesEnabled == \A k \in alive : QueriesEnabled(arr[k])
 RootingKept == \A k \in alive : RootingConsistent(arr[k], D)
 \* nothing is lost or duplicated: the arrays in use hold exactly the trees added so far
-NothingLost == BagOfSeq(Flatten([k \in Arrs |-> IF k \in alive THEN arr[k].trees ELSE <<>>])) = BagOfSeq(SubSeq(Sample, 1, nxt - 1))
+NothingLost == BagOfSeq(Flatten([k \in Arrs |-> IF k \in alive THEN arr[k].trees ELSE <<>>]) \o burnt) = BagOfSeq(SubSeq(Sample, 1, nxt - 1))
+SettingsKept == \A k \in Arrs : SettingsAre(arr[k], SetOf(cfg))
 =============================================================================
